@@ -1257,8 +1257,12 @@ class FilePackIndex(PackIndex):
             start = 0
         else:
             start = self._fan_out_table[idx - 1]
+        # names with this first byte occupy [start, end): slot ``end`` belongs
+        # to the next bucket or, for the last bucket, lies past the name table
         end = self._fan_out_table[idx]
-        i = bisect_find_sha(start, end, sha, self._unpack_name)
+        if start >= end:
+            raise KeyError(sha)
+        i = bisect_find_sha(start, end - 1, sha, self._unpack_name)
         if i is None:
             raise KeyError(sha)
         return self._unpack_offset(i)
